@@ -226,6 +226,12 @@ def check(ctx):
     # ... or a comprehension over all keys whose (non-empty) result raises
     it += [g_ for n in ast.walk(valid.node) if isinstance(n, (ast.ListComp, ast.SetComp, ast.GeneratorExp)) for g_ in n.generators if canon(g_.iter) in ("self.keys()", "self", "self.items()")]
     ctx.check(bool(it), valid, valid.node, "every key of the options object is checked", "validate_option_names does not iterate over all keys", construct="validate iteration")
+    # ... and the iteration is not cut short: a ``break`` / ``return`` inside the loop leaves the keys after it unchecked
+    # (keys come in sorted order, so every name sorting after the one that triggers the exit is accepted unseen)
+    for lp in [n for n in it if isinstance(n, ast.For)]:
+        for n in ast.walk(lp):
+            if isinstance(n, (ast.Break, ast.Return)) and not any(isinstance(p_, (ast.For, ast.While)) and p_ is not lp and any(x is n for x in ast.walk(p_)) for p_ in ast.walk(lp) if p_ is not lp):
+                ctx.fail(valid, n, "the loop over the option names is left early (break / return): names that sort after the key at which it stops are never validated", construct="early exit from the name validation loop")
 
     # ------------------------------------------------------------------ R3
     ctx.rule("R3", "defaults are evaluated for the instance's own dimension", floor=4)
